@@ -516,6 +516,9 @@ def _c13(bindir, tier, seed):
     q = tier == QUICK
     jobs = shards(bindir, "sock_driver", "C13-unbuffered", seed, 8, ["--property", "C13", "--mode", "unbuffered", "--cases", "250" if q else "2500"], 3000)
     jobs += shards(bindir, "sock_driver", "C13-buffered", seed, 8, ["--property", "C13", "--mode", "buffered", "--cases", "1000" if q else "8000"], 3000)
+    if not q:
+        for k, mode in enumerate(["unbuffered", "buffered"]):
+            jobs.append(strace_job("C13-strace-%s" % mode, "C13", bindir, ["--property", "C13", "--mode", mode, "--seed", str(seed + 7), "--shard", str(90 + k), "--shards", "1", "--cases", "300"], 3000))
     return jobs
 
 
@@ -524,6 +527,8 @@ def _c14(bindir, tier, seed):
     q = tier == QUICK
     jobs = shards(bindir, "sock_driver", "C14-enum", seed, 8, ["--property", "C14", "--mode", "stats-enum", "--maxlen", "7" if q else "10"], 3000)
     jobs += shards(bindir, "sock_driver", "C14-stats", seed, 8, ["--property", "C14", "--mode", "stats", "--cases", "120" if q else "1500"], 3000)
+    if not q:
+        jobs.append(strace_job("C14-strace-stats", "C14", bindir, ["--property", "C14", "--mode", "stats", "--seed", str(seed + 7), "--shard", "90", "--shards", "1", "--cases", "60"], 3000))
     return jobs
 
 
@@ -549,3 +554,47 @@ def _c20(bindir, tier, seed):
     for area, n, cases_q, cases_t in (("format", 8, 30, 1500), ("writer", 3, 20000, 400000), ("sinks", 2, 1500, 40000), ("queue", 2, 1500, 30000), ("misc", 1, 200, 2000)):
         jobs += shards(bindir, "hostile_driver", "C20-" + area, seed, n, ["--area", area, "--cases", str(cases_q if q else cases_t)], 3400)
     return jobs
+
+
+def strace_job(name, prop, bindir, drv_args, timeout):
+    """Runs sock_driver under `strace -f -e trace=sendto`: an INDEPENDENT observer of the syscall boundary. The number of
+    sendto calls the kernel saw, how many it accepted and the bytes it accepted must equal what the in-process interposer
+    recorded for the calls it let through (scripted failures never enter the kernel)."""
+    trace = os.path.join(VERIF, ".run", "strace-%s.txt" % name)
+    argv = ["strace", "-f", "-qq", "-e", "trace=sendto", "-o", trace, B(bindir, "sock_driver")] + drv_args + ["--out", "{out}"]
+
+    def parse(job):
+        import json as _json, re
+        out_path = [a for a in job.argv if a.endswith(".json")]
+        rep = None
+        # the report path is the last argv element after substitution by run_job: recompute it the same way
+        rp = os.path.join(VERIF, ".run", "%s-thorough" % prop, re.sub(r"[^A-Za-z0-9_.-]", "_", job.name) + ".json")
+        if os.path.exists(rp):
+            rep = _json.load(open(rp))
+        if rep is None:
+            return {"evaluations": 0, "violations": [], "violation_count": 0, "inconclusive": ["strace job %s produced no driver report: %s" % (job.name, job.output[-300:])]}
+        calls = ok = okb = 0
+        if os.path.exists(trace):
+            for line in open(trace, errors="replace"):
+                if "sendto" not in line:
+                    continue
+                m = re.search(r"\)\s+= (-?\d+)", line)
+                if not m:
+                    continue
+                calls += 1
+                r = int(m.group(1))
+                if r >= 0:
+                    ok += 1
+                    okb += r
+            os.remove(trace)
+        obs = rep.get("obs", {})
+        rep.setdefault("obs", {})["strace_sendto_calls_seen"] = calls
+        want = (obs.get("sendto_entered_kernel", -1), obs.get("sendto_kernel_accepted", -1), obs.get("sendto_kernel_accepted_bytes", -1))
+        if (calls, ok, okb) != want:
+            # the two observers disagree: the in-process log cannot be trusted for this run => no verdict from it
+            rep.setdefault("inconclusive", []).append("strace saw (calls, accepted, bytes) = %s but the interposer recorded %s" % ((calls, ok, okb), want))
+        else:
+            rep["obs"]["strace_agrees_with_interposer_runs"] = 1
+        return rep
+
+    return Job(name, argv, timeout, parser=parse)
